@@ -199,3 +199,12 @@ Proof.
     destruct (Z.eqb_spec archid 5); [cbn [orb]; apply walk_stack_gen_eq; exact tail_pinned_mips64|].
     cbn [orb]. apply walk_stack_gen_eq; exact tail_pinned_arm64.
 Qed.
+
+(* ---- lib.rs pieces the statements lean on: the context frame's instruction / resume address, the address the module is
+   looked up with and the address fill_symbol symbolizes (all three re-emitted from the Rust text) *)
+Lemma lib_pinned :
+  (forall r v t, f_instr (from_context r v t) = lib_from_context_instruction (r_ip r) (r_sp r) /\
+                 f_resume (from_context r v t) = lib_from_context_resume (r_ip r) (r_sp r)) /\
+  (forall mods f, Driver.frame_module mods f = Driver.d_module_at mods (lib_module_lookup_address (f_instr f) (f_resume f))) /\
+  (forall f, lib_symbol_lookup_address (f_instr f) (f_resume f) = f_instr f).
+Proof. split; [intros; split; reflexivity|]. split; intros; reflexivity. Qed.
